@@ -387,7 +387,7 @@ func (r *r1) publicationPass(cands []*types.Var) map[*types.Var]*pubResult {
 						}
 					}
 				case core.KAccess:
-					v := ev.Var
+					v := accessVar(ev)
 					if !isCand[v] {
 						continue
 					}
@@ -406,7 +406,7 @@ func (r *r1) publicationPass(cands []*types.Var) map[*types.Var]*pubResult {
 							escaped[v] = false
 							continue
 						}
-						counted := escaped[v]
+						counted := escaped[v] || escaped[baseVar(v)]
 						for f := ev.Frame; f != nil && !counted; f = f.Parent {
 							if f.Lit != nil && r.escOf[f.Lit] != core.EscNone && !(v.Pos() >= f.Lit.Pos() && v.Pos() < f.Lit.End()) {
 								counted = true
